@@ -544,6 +544,35 @@ u_special(uint64_t idx, void *arg)
         VH_CASE2(1, i);
         expect_integer(ints[i].t, ints[i].v);
     }
+    /* integers written with leading zeros, in fields of 19..1000 digits (a fixed-width "%032llu" or "#x%040llX"
+     * rendering): the value is that of the digits, however many zeros stand in front */
+    {
+        static const size_t widths[] = { 19, 20, 21, 22, 23, 24, 25, 31, 32, 33, 40, 64, 100, 1000 };
+        static const uint64_t vals[] = { 0, 1, 42, 255, 0x8000000000000000ull, 18446744073709551615ull, 1234567890123456789ull };
+        static char zt[1100];
+        for (size_t wi = 0; wi < sizeof widths / sizeof widths[0]; wi++)
+            for (size_t vi = 0; vi < sizeof vals / sizeof vals[0]; vi++)
+                for (int fmt = 0; fmt < 3; fmt++) {
+                    char digits[32];
+                    int nd = snprintf(digits, sizeof digits, fmt == 0 ? "%" PRIu64 : fmt == 1 ? "%" PRIx64 : "%" PRIX64, vals[vi]);
+                    if ((size_t)nd > widths[wi])
+                        continue;
+                    size_t o = 0;
+                    if (fmt) {
+                        zt[o++] = '#';
+                        zt[o++] = 'x';
+                    }
+                    for (size_t z = (size_t)nd; z < widths[wi]; z++)
+                        zt[o++] = '0';
+                    memcpy(zt + o, digits, (size_t)nd);
+                    o += (size_t)nd;
+                    zt[o] = 0;
+                    vh_arena_reset();
+                    VH_CASE4(5, widths[wi], vi, fmt);
+                    expect_integer(zt, vals[vi]);
+                    VH_COUNT("special: integers with leading zeros in wide fields");
+                }
+    }
     /* long symbols and long digit strings, each also as the last element of a list */
     static char text[70000];
     static const size_t lens[] = { 1, 2, 15, 16, 17, 254, 255, 256, 257, 1000, 4095, 4096, 65535, 65536, 66000 };
